@@ -62,6 +62,15 @@ PLAIN = [
     ('(x>y)+z', '<x><y></y></x><z>', '</z>'),
     ('x>y{k${1:f}}', '<x><y>', '</y></x>'),
 ]
+# `$#` without an implicit repeater: the text goes to every placeholder and nowhere else (what the library does), or - the
+# literal reading of the property - once into the deepest last element with the placeholders left empty; nothing else
+# (e.g. both) is accepted.  Checked for texts of one non-blank line.
+PLACEHOLDER_PLAIN = [
+    ('p{[$#]}', '<p>[%s]</p>', '<p>[]%s</p>'),
+    ('x>h{$#}+p', '<x><h>%s</h><p></p></x>', '<x><h></h><p>%s</p></x>'),
+    ('q[c=$#]>p', '<q c="%s"><p></p></q>', '<q c=""><p>%s</p></q>'),
+    ('e{$#}*2', '<e>%s</e><e>%s</e>', '<e></e><e>%s</e>'),
+]
 PLAIN_OWN_TEXT = {'x>y{k}': 'k', 'x>y{k${1:f}}': 'kf'}
 BOUNDS = {'quick': dict(payload=3, lines=3), 'thorough': dict(payload=4, lines=4)}
 NOFMT = {'output.format': False}
@@ -162,6 +171,17 @@ def check_wrap(lines):
             ok = out == per_line or (out.startswith(a) and out.endswith(b_) and norm(out[len(a):len(out) - len(b_)]) == norm(whole))
             if not ok:
                 bad.append((abbr, ('wrap-string:%s' % abbr, dict(abbr=abbr, text='\n'.join(lines), actual=out, accepted=[per_line, a + whole + b_]))))
+    if len(clean) == 1 and len(lines) == 1:
+        for abbr, at_placeholders, appended in PLACEHOLDER_PLAIN:
+            for text in (list(lines), clean[0]):
+                try:
+                    out = expand(abbr, {'text': text, 'options': dict(NOFMT)})
+                except Exception as e:
+                    bad.append((abbr, ('wrap:exception:%s' % type(e).__name__, dict(abbr=abbr, lines=lines, error=str(e)[:120]))))
+                    continue
+                accepted = [f_.replace('%s', t) for t in (clean[0], lines[0]) for f_ in (at_placeholders, appended)]   # trimmed or as given
+                if out not in accepted:
+                    bad.append((abbr, ('wrap:placeholder-without-implicit-repeater:%s' % abbr, dict(abbr=abbr, text=text, actual=out, accepted=accepted))))
     for abbr, pre, post in PLAIN:
         try:
             out = expand(abbr, {'text': list(lines), 'options': dict(NOFMT)})
